@@ -14,7 +14,7 @@ What this decides is the decoder's reading of every element form; it is bounded 
 says nothing about the encoder's choice of matches (the encoder's element emission is decided by the element
 rules of C09, its length fields by R35/R38)."""
 from . import sem
-from .skeleton import Ptr, Sym, U
+from .skeleton import OutOfBounds, Ptr, Sym, U
 
 SN = "src/compression/snappy.c"
 LZ = "src/compression/lz4.c"
@@ -184,8 +184,15 @@ def run_decoder(P, fn, raw, cap):
     """raw: ints and None. Returns (status, reported size, [tokens])."""
     heap0 = {("in", i): b for i, b in enumerate(raw) if b is not None}
     mem = lambda base, off, size: Sym(("load", "in", off, 8), 8) if base == "in" and 0 <= off < len(raw) and size == 1 else None
-    paths = sem.run(P, fn, [Ptr("in", 0, 1), len(raw), Ptr("out", 0, 1), cap, Ptr("osz", 0, 8)], heap0=heap0, hooks={},
-                    single=False, memory=mem, max_forks=8, budget=6000000, inline_depth=5, with_acc=True)
+    try:
+        paths = sem.run(P, fn, [Ptr("in", 0, 1), len(raw), Ptr("out", 0, 1), cap, Ptr("osz", 0, 8)], heap0=heap0, hooks={},
+                        single=False, memory=mem, max_forks=8, budget=6000000, inline_depth=5, with_acc=True,
+                        bounds={"in": (0, len(raw)), "out": (0, cap)})
+    except OutOfBounds as ob:
+        a = ob.access
+        if a.base == "in":
+            raise Outside("reads input bytes %d..%d of a %d-byte stream" % (a.lo, a.hi - 1, len(raw)))
+        raise Outside("%s output bytes %d..%d of a %d-byte destination" % ("writes" if a.kind == "w" else "reads", a.lo, a.hi - 1, cap))
     # extents: nothing is read outside the stream, nothing is touched outside the destination (on any path: a byte
     # fetched from behind the input is what makes the control flow fork in the first place)
     for ret, ev, heap, acc, unk in paths:
@@ -248,6 +255,9 @@ def sn_streams(deep):
         V.append(("literal 20, copy-1 len %d offset %d, literal 40" % (ln, off), [sn_literal(20), sn_copy1(ln, off), sn_literal(40)]))
     for ln, off in ((64, 8), (64, 15), (64, 16), (64, 17), (33, 32), (17, 20), (64, 63)):
         V.append(("literal 70, copy-2 len %d offset %d, literal 40" % (ln, off), [sn_literal(70), sn_copy2(ln, off), sn_literal(40)]))
+    # offsets with the top bit of the 16-bit field set (a decoder that assembles the offset in a signed 16-bit type goes wrong here)
+    V.append(("literal 32800, copy-2 len 20 offset 32768", [sn_literal(32800), sn_copy2(20, 32768)]))
+    V.append(("literal 40010, copy-2 len 64 offset 40000, literal 3", [sn_literal(40010), sn_copy2(64, 40000), sn_literal(3)]))
     if deep:
         V.append(("literal 65600, copy-2 len 64 offset 65535", [sn_literal(65600), sn_copy2(64, 65535)]))
         V.append(("literal 65600, copy-4 len 64 offset 65537", [sn_literal(65601), sn_copy4(64, 65537)]))
@@ -261,6 +271,15 @@ def sn_streams(deep):
     I.append(("literal tag announcing 2 length bytes as the last byte", [sn_literal(8), [61 << 2]], 300))
     I.append(("elements producing more than the announced length", [sn_literal(8), sn_copy1(4, 4)], 10))
     I.append(("elements producing less than the announced length", [sn_literal(8)], 9))
+    # length fields with the top bit of their last byte set (an implementation that assembles them in a signed int goes negative)
+    I.append(("literal with 4 length bytes announcing 2^31 + 1 bytes", [[(63 << 2), 0x00, 0x00, 0x00, 0x80, 1, 2, 3]], 100))
+    I.append(("literal with 4 length bytes announcing 2^32 bytes", [[(63 << 2), 0xFF, 0xFF, 0xFF, 0xFF, 1, 2, 3]], 100))
+    I.append(("literal with 3 length bytes announcing 2^23 + 1 bytes", [[(62 << 2), 0x00, 0x00, 0x80, 1, 2, 3]], 100))
+    # malformed length preambles: given as the whole stream (parts = None)
+    I.append(("length preamble cut off after one continuation byte", None, [0x80]))
+    I.append(("length preamble cut off after three continuation bytes", None, [0x81, 0x80, 0x80]))
+    I.append(("length preamble of six bytes", None, [0x80, 0x80, 0x80, 0x80, 0x80, 0x00] + sn_literal(1)))
+    I.append(("length preamble of five continuation bytes and nothing else", None, [0x88, 0x80, 0x80, 0x80, 0x80]))
     return V, I
 
 
@@ -287,7 +306,7 @@ def lz_streams(deep):
     return V, I
 
 
-def check(ctx, rule="R41.block-format", deep=False):
+def check(ctx, rule="R41.block-format", deep=False, valid_only=False):
     P = ctx.P
     n = 0
     for name, file_, fname, spec, streams, preamble in (("Snappy", SN, "carquet_snappy_decompress", sn_spec, sn_streams, True),
@@ -329,17 +348,22 @@ def check(ctx, rule="R41.block-format", deep=False):
             continue
         n += done
         ctx.ob(rule, key, P.where(fn.body), what + " (%d streams)" % done, bad is None, bad or "")
+        if valid_only:
+            continue
         key2 = "decoder-rejects|%s:%s" % (file_, fname)
         what2 = "%s rejects the streams of the grid that the %s format defines as invalid" % (fname, name)
         bad = None
         done = 0
         try:
             for label, parts, announced in I:
-                body = [b for p in parts for b in p]
-                if preamble:
-                    raw = varint(announced if announced is not None else len(_sn_len(body, lenient=True))) + body
+                if parts is None:
+                    raw = list(announced)
                 else:
-                    raw = body
+                    body = [b for p in parts for b in p]
+                    if preamble:
+                        raw = varint(announced if announced is not None else len(_sn_len(body, lenient=True))) + body
+                    else:
+                        raw = body
                 try:
                     spec(tokens_of(raw))
                     continue            # the grid entry is not invalid after all: not judged
@@ -361,6 +385,34 @@ def check(ctx, rule="R41.block-format", deep=False):
             continue
         n += done
         ctx.ob(rule, key2, P.where(fn.body), what2 + " (%d streams)" % done, bad is None, bad or "")
+    # the length query reads the same preamble: well-formed ones give their value, malformed ones are refused
+    gl = P.fn_opt("carquet_snappy_get_uncompressed_length", SN)
+    if gl is not None and not valid_only:
+        key3 = "preamble|%s:carquet_snappy_get_uncompressed_length" % SN
+        what3 = ("carquet_snappy_get_uncompressed_length returns the value of a well-formed length preamble (one value on either side of every 7-bit boundary) "
+                 "and refuses a preamble that is cut off or longer than five bytes")
+        bad, done = None, 0
+        try:
+            for v in (0, 1, 127, 128, 16383, 16384, 2097151, 2097152, 268435455, 268435456, 0xFFFFFFFF):
+                raw = varint(v) + [0x00, 0x41]
+                ret, ev, heap = sem.run(P, gl, [Ptr("in", 0, 1), len(raw), Ptr("len", 0, 8)], heap0={("in", i): b for i, b in enumerate(raw)}, hooks={},
+                                        single=True, max_forks=4, budget=100000, inline_depth=5)
+                done += 1
+                if bad is None and (ret != 0 or heap.get(("len", 0)) != v):
+                    bad = "preamble of the length %d: returns %r with length %r" % (v, ret, heap.get(("len", 0)))
+            for label, parts, raw in sn_streams(False)[1]:
+                if parts is not None:
+                    continue
+                ret, ev, heap = sem.run(P, gl, [Ptr("in", 0, 1), len(raw), Ptr("len", 0, 8)], heap0={("in", i): b for i, b in enumerate(raw)}, hooks={},
+                                        single=True, max_forks=4, budget=100000, inline_depth=5)
+                done += 1
+                if bad is None and ret == 0:
+                    bad = "%s: accepted, reporting the length %r" % (label, heap.get(("len", 0)))
+        except (sem.Inconclusive, KeyError) as ex:
+            ctx.inconclusive(rule, key3, P.where(gl.body), what3, "%s: %s" % (type(ex).__name__, ex))
+        else:
+            n += done
+            ctx.ob(rule, key3, P.where(gl.body), what3 + " (%d preambles)" % done, bad is None, bad or "")
     return n
 
 
